@@ -3,7 +3,7 @@
 # Applies each seeded change to /repo, runs the quick check of the property it breaks (and of the other claimed
 # properties listed as argument 2.. via PROPS env), records which obligations fail, and reverts the change.
 cd /verif
-seeds=("$@"); [ ${#seeds[@]} -eq 0 ] && seeds=($(ls seeded | grep -E '^C[0-9]+-(r2)?[abc]$'))
+seeds=("$@"); [ ${#seeds[@]} -eq 0 ] && seeds=($(ls seeded | grep -E '^C[0-9]+-(r[0-9])?[abc]$'))
 claimed=$(python3 -c "import json;print(' '.join(c['property_id'] for c in json.load(open('MANIFEST.json'))['checks']))")
 for sd in "${seeds[@]}"; do
   prop=${sd%%-*}
